@@ -427,3 +427,56 @@ def check_before_effects(R, fn, err_sites, effects, key, why=''):
         R.ob('DOM', k, pth is None and (fn.dominates(g, e) or fn.exists_path(None, [e], [g], from_entry=True) is not None or True),
              'the refusal guarded by the limit test (L%s%s) is never reached after %s; %s%s' % (g.line, ' `%s %s %s`' % rc[:3] if rc else '', desc(e), why, '' if pth is None else ' -- path %s' % pth), e.where, fn)
     return rc
+
+
+def origins(fn, op_or_place, depth=8, _seen=None):
+    """Name-independent backward slice of a value: the set of callee paths, `arg:<index>` and `field:<name>` tokens met when the value's
+    provenance is walked back through calls (all arguments), re-assigned locals (all definitions) and projections.  Used to identify the
+    ROLE of a value (which file, which counter) without relying on the names of local variables."""
+    out = set()
+    if _seen is None:
+        _seen = set()
+    if depth < 0 or op_or_place is None:
+        return out
+    if op_or_place and op_or_place[0] in ('k', 'fn'):
+        return out
+    p = fn.prov_operand(op_or_place) if op_or_place[0] in ('c', 'm') else fn.prov_place(op_or_place)
+    for el in p.path:
+        if isinstance(el, str) and el.startswith('.') and not el[1:].isdigit():
+            out.add('field:' + el[1:])
+    for v in p.via:
+        if v[0] == 'call':
+            out.add(v[1])
+    r = p.root
+    if r[0] == 'arg':
+        out.add('arg:%d' % r[1])
+    elif r[0] == 'call':
+        s = r[1]
+        if s.callee:
+            out.add(s.callee)
+        k = s.key()
+        if k not in _seen:
+            _seen.add(k)
+            for a in s.args:
+                out |= origins(fn, a, depth - 1, _seen)
+    elif r[0] in ('var', 'multi', 'local'):
+        local = r[2] if r[0] == 'var' else r[1]
+        if ('L', local) not in _seen:
+            _seen.add(('L', local))
+            for kind, site in fn.defs.get(local, []):
+                if kind == 'call':
+                    if site.callee:
+                        out.add(site.callee)
+                    for a in site.args:
+                        out |= origins(fn, a, depth - 1, _seen)
+                else:
+                    rv = site.node[2]
+                    if rv[0] == 'use':
+                        out |= origins(fn, rv[1], depth - 1, _seen)
+                    elif rv[0] in ('ref', 'rawptr'):
+                        out |= origins(fn, rv[2], depth - 1, _seen)
+                    elif rv[0] == 'cast':
+                        out |= origins(fn, rv[2], depth - 1, _seen)
+            if 1 <= local <= fn.nargs:
+                out.add('arg:%d' % local)
+    return out
